@@ -31,7 +31,7 @@ def _():
     pass
 
 
-@interface("RegistryX.get", params=dict(self=Ref("RegistryX"), type_qualname=Str), returns=SX)
+@interface("RegistryX.get", params=dict(self=Ref("RegistryX"), type_qualname=Opt(Str)), returns=SX)
 def _(self, type_qualname):
     pass
 
